@@ -31,7 +31,8 @@ def _viol(msg):
 
 
 def _event(ev):
-    if len(_state['events']) < 400:
+    # (M-delay events are few hundred bytes each and a consumer compares their complete set: no cap for them)
+    if len(_state['events']) < 400 or (ev and ev[0] == 'mdelay' and len(_state['events']) < 20000):
         _state['events'].append(ev)
 
 
